@@ -9,7 +9,7 @@ func init() {
 			"each pool model's state-mutating swap returns exactly what its pure calculation returned for the same arguments and applies exactly those coins to the reserves (sibling agreement).",
 		NotCovered:  []string{"agreement with the constant-weighted-product formula to powPrecision", "monotonicity of the stableswap invariant", "value conservation over sequences (iterative series and binary search)"},
 		Assumptions: []string{"osmomath.Pow / binary search accuracy (C13)"},
-		MinObl:      40,
+		MinObl:      42,
 		Run:         runC04,
 	})
 }
@@ -33,6 +33,8 @@ func runC04(c *rules.Ctx) {
 	c.FailsWhen(CF+"CalcExitPool", "ge(exitingShares, gammtypes.CFMMPoolI.GetTotalShares(pool))", "exiting all (or more than all) shares is an error", rules.GuardOpt{})
 	c.FailsWhen(CF+"CalcExitPool", "ge(sdkmath.LegacyDec.TruncateInt(_), elem(_).Amount)", "an exit amount reaching the whole reserve is an error", rules.GuardOpt{Conditional: true})
 	c.Returns(CF+"MaximalExactRatioJoin", 0, "each(alt(zero:Int(), local:numShares(), sdkmath.LegacyDec.TruncateInt(sdkmath.LegacyDec.MulInt(_, gammtypes.CFMMPoolI.GetTotalShares(p)))))", "proportional join: shares are truncated", "")
+	c.RoundRegion(CF+"MaximalExactRatioJoin", "", "DOWN,UP", nil, 2, "proportional join: the share ratio is a floor division and the shares are truncated; only the used amounts are rounded up — no half-even operation")
+	c.CallArg(CF+"MaximalExactRatioJoin", "sdkmath.LegacyDec.QuoInt", 1, "sdk.Coins.AmountOfNoDenomValidation(gammtypes.CFMMPoolI.GetTotalPoolLiquidity(p,ctx), elem(tokensIn).Denom)", "the share ratio of a coin is its amount floor-divided by the pool's reserve of the same denom")
 	c.HasCall(CF+"MaximalExactRatioJoin", "sdkmath.Int.Sub", []string{"elem(tokensIn).Amount", "sdkmath.LegacyDec.TruncateInt(sdkmath.LegacyDec.Ceil(_))"}, false, "proportional join: the amount used of each coin is ceiled (the remainder returned is rounded down)", "")
 	// ---- stableswap solver directions
 	const A = "x/gamm/pool-models/stableswap.Pool."
